@@ -209,6 +209,8 @@ def c04_require(agg):
         need.append("fewer than 10 hops through another process")
     if st.get("max_endpoints_in_one_message", 0) < 60:
         need.append("no message with >=60 attachments")
+    if st.get("receivers_sent_by_shared_pointer", 0) < 50:
+        need.append("fewer than 50 receivers sent by shared pointer")
     return need
 
 
@@ -961,7 +963,7 @@ PROPS = {
         "level_text": "Exploration: hundreds (quick) to ~20k (thorough) generated values embedding 0..63 endpoints of seven kinds plus regions at random "
                       "positions of nested containers travel 1..5 hops through echo relays in other threads and exec'd processes; every endpoint leaf is "
                       "identity-probed with unique nonces against the counterpart the harness kept, travelling receivers must yield backlog ++ later "
-                      "messages in order, and no kept receiver may see a stray nonce.",
+                      "messages in order, and no kept receiver may see a stray nonce. Every fifth case sends a receiver through a shared pointer (Arc, serde rc) - the only way to keep the handle it was sent from - which must then receive nothing further while the transferred receiver yields everything in order.",
         "level_note": "Probes run in the originating process after the last hop; identity is established by unique nonces, so a swapped, "
                       "duplicated or misclassified descriptor shows up as a nonce on the wrong channel.",
         "technique": "runtime monitoring: identity probes with unique nonces over generated nested values and multi-hop cross-process transfer chains",
